@@ -338,6 +338,8 @@ def run(ctx):
     st = F.find1(impl_self_name="ElfSection", name="section_type", impl_trait=None)
     if st:
         c20.table_check(ctx, "E5", "section_type", st, S.ELF_SECTION_TYPES, "ElfSectionType", domain=U32, other=(S.ELF_SECTION_RANGES, S.ELF_SECTION_OTHER))
+    from . import tagtables as TT_
+    TT_.flag_constants(ctx, F, S.ELF_FLAG_CONSTANTS, "E6", "ELF gABI sh_flags bit")
     ctx.note("ElfSection::name()/string_table() dereference an address stored in the tag (external memory): the documented exception of C01; not part of this property's bounds")
     from . import iters
     rem_ = fld(deref(arg(1)), itf["remaining_sections"]["i"])
